@@ -16,4 +16,14 @@ META = {
         text="Exploration: (A) tens of thousands of byte-level inputs per run reach TxDecoder, every registered message type's ValidateBasic and signer extraction, the ante handler, claim/confirm decoding, all 20 precompile methods and the target/address parsers; any panic (also one recovered as ErrPanic) is a violation. (B) thousands of CheckTx-mode ante executions on apps built with generated exempt-type lists and allowances are compared with an independent statement of the bypass rule at the +-1 boundaries of gas allowance and required fee.",
         note="MsgClaim cannot pass ValidateBasic after wire decoding on this snapshot (no UnpackInterfaces), so claims are additionally fed as Any bytes. The ante handler is invoked directly in CheckTx mode (baseapp's decode / validate-basic order is reproduced by the harness).",
     ),
+    "C01": dict(
+        technique="stateful property-based testing (rapid-generated operation histories as pure data) against the real crosschain keeper, precompile and end blocker; invariants over raw stores after every step plus a reference model of the per-oracle event-nonce cursor",
+        text="Exploration: generated vote / execute / governance / bond / unbond / re-bond / end-block histories with competing claims per nonce; after every step: last observed nonce advances by at most one and only for the voted nonce, at most one observed attestation per nonce without gaps, no oracle vote accepted twice for a nonce or out of cursor order, rejected votes and failed executions leave the module store and balances unchanged, a parked claim executes at most once.",
+        note="Claims are injected at the MsgClaim handler with unpacked claims; the EVM, staking and bank keepers are the real ones. Pruning (> 100 nonces) only in the thorough tier.",
+    ),
+    "C02": dict(
+        technique="stateful property-based testing (rapid) with an independent quorum oracle: at the step an event becomes observed the harness recomputes the power of the distinct registered oracles whose votes for exactly that content it saw accepted, from the pre-step store",
+        text="Exploration: oracle sets of 1..12 (20 thorough) members with generated stake distributions and delegate bounds; every observation must satisfy 100*S >= 66*recorded total with S over distinct registered voters of that very claim, recorded total power never below the online oracles' power, votes only from online registered oracles; a block-level sub-check delivers MsgClaim transactions whose wrapper and wrapped bridger differ and requires that no vote is recorded for an oracle whose bridger did not sign.",
+        note="Same machine as C01. Power unit = 100 FX (sdk.DefaultPowerReduction in this app).",
+    ),
 }
